@@ -359,7 +359,8 @@ With the completion ring full and one completion on the overflow list, a kernel 
 read makes the caller read the NEW completion through the old reference, and reap it again later: one operation
 never completes for the application, another completes twice.  Reproduced on the real code: simulated kernel
 (`kring … : rb : o 1 : rr …` in harness/c18) and the running kernel (`refrace`: the overflow flush of a safe
-`io_uring_enter(fd, 0, 0, GETEVENTS)` between `get_next_cqe()` and the read). -/
+`io_uring_enter(fd, 0, 0, GETEVENTS)` between `get_next_cqe()` and the read; and with no system call at all in
+between — the kernel posts from task work while the thread is in user mode — in the `overflow` run). -/
 
 /-- reading through the reference at once is the atomic reap the theorems above are about -/
 theorem split_reap_is_reap (K : Kern) (cd : Ring.Code) (s : KSt) :
